@@ -284,6 +284,19 @@ def rule_r234(chk, prog):
     if len(sets) != 1:
         raise AnalysisError('reduplicate: seen-set not found')
     seen = sets[0]
+    # roles: the work list (loop test) and the frame stack ([[]])
+    work = unparse(loops[0].test)
+    frames = None
+    for st in walk_no_nested(f):
+        if isinstance(st, ast.Assign) and isinstance(
+                st.targets[0], ast.Name) and isinstance(
+                    st.value, ast.List) and len(
+                        st.value.elts) == 1 and isinstance(
+                            st.value.elts[0], ast.List) and \
+                not st.value.elts[0].elts:
+            frames = st.targets[0].id
+    if frames is None:
+        raise AnalysisError('reduplicate: frame stack ([[]]) not found')
     # popped variable
     popv = None
     for st in ast.walk(loops[0]):
@@ -291,7 +304,7 @@ def rule_r234(chk, prog):
                 st.value, ast.Call) and isinstance(
                     st.value.func, ast.Attribute) and \
                 st.value.func.attr == 'pop' and unparse(
-                    st.value.func.value) == 'visit':
+                    st.value.func.value) == work:
             t = st.targets[0]
             popv = t.elts[0].id if isinstance(t, ast.Tuple) else t.id
     if popv is None:
@@ -304,7 +317,7 @@ def rule_r234(chk, prog):
         desc = describe_path(p)
         apps = [(i, n, c) for (i, n, c) in path_method_calls(p,
                                                              attr='append')
-                if unparse(c.func.value) == 'args[-1]']
+                if unparse(c.func.value) == f'{frames}[-1]']
         # local definitions on the path (node = Node(*children))
         local = {}
         for n in p.nodes[:-1]:
@@ -348,15 +361,19 @@ def rule_r234(chk, prog):
             elif isinstance(val, ast.Call) and call_name(val) == 'Node':
                 args = [unparse(x) for x in val.args]
                 kws = [k.arg for k in val.keywords]
-                ok = not kws and args in ([f'{popv}.data'], ['*children'])
+                starred = len(val.args) == 1 and isinstance(
+                    val.args[0], ast.Starred) and isinstance(
+                        val.args[0].value, ast.Name)
+                ok = not kws and (args == [f'{popv}.data'] or starred)
                 if args == [f'{popv}.data']:
                     # only a leaf is re-created from its text: Node(()) of
                     # an empty list "()" would be the list "(())"
                     ok = ok and (f'{popv}.is_leaf()', True) in before
-                if args == ['*children']:
+                if starred:
                     # children must be this frame's rebuilt children
-                    ok = ok and 'children' in local and unparse(
-                        local['children']) == 'args.pop()'
+                    cn = val.args[0].value.id
+                    ok = ok and cn in local and unparse(
+                        local[cn]) == f'{frames}.pop()'
                 chk.check('C13.R3', where, f'{desc}: {unparse(val)}', ok,
                           'a rebuilt node must be Node(<original text>) or '
                           'Node(*<rebuilt children>) with a fresh identity',
@@ -369,14 +386,14 @@ def rule_r234(chk, prog):
     # all children pushed, in order
     exts = [c for c in calls_in(loops[0]) if isinstance(
         c.func, ast.Attribute) and c.func.attr == 'extend'
-        and unparse(c.func.value) == 'visit']
+        and unparse(c.func.value) == work]
     ok = len(exts) == 1 and f'reversed({popv}.data)' in unparse(exts[0])
     chk.check('C13.R3', where, 'children pushed reversed', ok,
               'children are not pushed completely and in reverse order',
               loc=m.loc(f), nontrivial=True)
     rets = [s for s in walk_no_nested(f) if isinstance(s, ast.Return)]
     chk.check('C13.R3', where, 'returns the rebuilt list',
-              len(rets) == 1 and unparse(rets[0].value) == 'args[0]',
+              len(rets) == 1 and unparse(rets[0].value) == f'{frames}[0]',
               'unexpected return value', loc=m.loc(f))
 
 
